@@ -143,11 +143,31 @@ def validate(ctx, pid, scenarios, tag, shards=12):
     return out
 
 
-def judge(ctx, pid, rejected):
+# Clauses are named after the property whose wording they quote, but one deviation can break several
+# properties: a legal fragmented text message that is rejected is "not delivered" (C04), "a legal sequence
+# not accepted" (C05) and "well-formed text rejected" (C06).  In the *focused* families of property X the
+# clauses listed here are X's too (in the shared common pool only X.* clauses are).
+CROSS = {
+    "C02": {"C05.legal_frame_rejected", "C17.undocumented_exception", "C02.returned_without_a_complete_frame",
+            "C04.reassembled_message_differs", "C03.outcome_delayed_by_read", "C03.spurious_exception"},
+    "C03": set(),      # judged by the group rule below: the same stream must behave the same under every cutting
+    "C04": {"C06.well_formed_text_rejected", "C05.legal_frame_rejected", "C02.decoded_result_differs", "C17.undocumented_exception",
+            "C02.returned_without_a_complete_frame", "C03.spurious_exception", "C06.ill_formed_text_delivered"},
+    "C05": {"C06.well_formed_text_rejected", "C06.ill_formed_text_delivered", "C17.undocumented_exception"},
+    "C06": {"C17.undocumented_exception", "C05.legal_frame_rejected"},
+    "C07": {"C05.legal_frame_rejected", "C17.undocumented_exception", "C01.reply_frame_malformed", "C01.reply_not_one_whole_frame",
+            "C03.outcome_delayed_by_read"},
+    "C17": {"C03.spurious_exception"},
+}
+
+
+def judge(ctx, pid, rejected, focused=True):
     """Turns rejected traces into verdicts for property `pid`."""
     for sc, b, trace in rejected:
         why = b["why"]
         owner = why.split(".")[0]
+        if focused and owner != "harness" and why in CROSS.get(pid, ()):
+            owner = pid
         rep = {"scenario": _jsonable(sc), "rejected_at": b["at"], "event": b["ev"], "clause": why,
                "trace": [{k: v for k, v in e.items() if k != "tid"} for e in trace[max(0, b["at"] - 6):b["at"] + 2]]}
         if owner == "harness":
@@ -158,6 +178,28 @@ def judge(ctx, pid, rejected):
                              sc.get("skipUtf8"), sc["calls"][0][0]), rep)
         else:
             ctx.remark("clause %s (owned by %s) failed in a %s scenario; judged by ./check %s" % (why, owner, pid, owner))
+
+
+def group_rule(ctx, scs, rejected):
+    """C03 as literally stated: all cuttings / timeout placements of one stream (same API and flags) must give
+    the same result.  A stream for which some deliveries are accepted by the machine and others are not
+    depends on segmentation, whatever clause the rejected ones break."""
+    groups = {}
+    for sc in scs:
+        key = (bytes(sc["stream"]), sc["calls"][0][0], sc["calls"][0][1], sc.get("fireCont"), sc.get("skipUtf8"))
+        groups.setdefault(key, [0, []])[0] += 1
+    for sc, b, trace in rejected:
+        if b["why"].split(".")[0] in ("harness",):
+            continue
+        key = (bytes(sc["stream"]), sc["calls"][0][0], sc["calls"][0][1], sc.get("fireCont"), sc.get("skipUtf8"))
+        groups[key][1].append((sc, b, trace))
+    for key, (n, rej) in groups.items():
+        if rej and len(rej) < n:
+            sc, b, trace = rej[0]
+            ctx.deviation(None, "stream %s (%s): %d of %d deliveries behave differently from the others, e.g. cuts=%s timeouts=%s end=%s breaks %s at event %d"
+                          % (key[0][:24].hex(), key[1], len(rej), n, str(sc.get("cuts"))[:60], sc.get("timeouts"), sc.get("end"), b["why"], b["at"]),
+                          {"scenario": _jsonable(sc), "rejected_at": b["at"], "clause": "C03.result_depends_on_segmentation (" + b["why"] + ")",
+                           "trace": [{k: v for k, v in e.items() if k != "tid"} for e in trace[max(0, b["at"] - 6):b["at"] + 2]]})
 
 
 def _jsonable(sc):
@@ -219,7 +261,7 @@ def fam_decode(rng, tier):
         op, rsv, fin = b1 & 15, (b1 >> 4) & 7, b1 >> 7
         for masked in (0, 1):
             for n in (0, 1, 125):
-                if tier == "quick" and n == 125 and (b1 % 4):
+                if tier == "quick" and n == 125 and (b1 % 4) and op not in (8, 9, 10):
                     continue
                 pl = bytes(rng.randrange(256) for _ in range(n))
                 if op == 8 and n >= 2:
@@ -475,6 +517,34 @@ def fam_segmentation(rng, tier):
             for p, q in pairs:
                 f.add(stream, [api], cuts=rng.choice([(), "every"]), timeouts=[p, q], end="eof", max_calls=len(frames) + 5,
                       via_connect=rng.random() < 0.1)
+    # frames with extended length forms: a timeout at every position of the first bytes (header, extended length,
+    # key), and cuts everywhere around them
+    for n, masked in ((126, None), (300, b"\x01\x02\x03\x04"), (65536, None), (200, None)):
+        if n > 60000 and tier == "quick":
+            n = 66000
+        body = bytes((i * 7) % 251 for i in range(n))
+        fr = wire.sframe(B, body, mask=masked)
+        nxt = wire.sframe(T, b"tail")
+        stream = fr + nxt
+        hl = len(fr) - n
+        for api in (MSG_APIS[0], MSG_APIS[3]):
+            for p in range(0, hl + 3):
+                for cs in ((), tuple(range(1, hl + 4))):
+                    f.add(stream, [api], cuts=cs, timeouts=[p], end="eof", max_calls=5)
+            f.add(stream, [api], cuts=(), timeouts=[], end="eof", max_calls=4)
+    # frames larger than one transport request (16384): tail and next frame in one segment, in 1460-byte segments, random
+    for n in ((20000, 40000) if tier == "quick" else (16385, 20000, 32768, 40000, 70000)):
+        body = bytes((i * 13) % 253 for i in range(n))
+        fr = wire.sframe(B, body)
+        nxt = wire.sframe(PI, b"after") + wire.sframe(T, b"end")
+        stream = fr + nxt
+        L = len(stream)
+        for api in (MSG_APIS[0], MSG_APIS[2]):
+            f.add(stream, [api], cuts=(), end="eof", max_calls=5)
+            f.add(stream, [api], cuts=tuple(range(1460, L, 1460)), end="eof", max_calls=5)
+            f.add(stream, [api], cuts=(len(fr),), end="eof", max_calls=5)
+            f.add(stream, [api], cuts=tuple(sorted(rng.sample(range(1, L), 6))), end="eof", max_calls=5)
+            f.add(stream, [api], cuts=(16384, 16385, len(fr) - 1), timeouts=[16384], end="eof", max_calls=6)
     # long mixed streams
     for _ in range(60 if tier == "quick" else 1200):
         seq = []
@@ -573,7 +643,9 @@ def run_for(ctx, pid, with_mc=True):
     for tag, fn in fams:
         scs = fn(rng, ctx.tier)
         rejected = validate(ctx, pid, scs, tag)
-        judge(ctx, pid, rejected)
+        judge(ctx, pid, rejected, focused=(tag != "common_pool"))
+        if pid == "C03" and tag != "common_pool":
+            group_rule(ctx, scs, rejected)
     negative_controls(ctx, pid)
 
 
